@@ -80,3 +80,131 @@ package node_manager
 //@   mode abstract
 //@   requires native != nil
 //@   modifies nothing
+
+// ---- validator candidacy and privileged operations (C33, C18) ------------------------------------
+//@ spec peerApplyKey(pubkey string) KeyT = K2(utils.NodeManagerContractAddress, "peerApply", hexDecode(pubkey))
+
+//@ func GetPeerApply
+//@   property C33
+//@   mode abstract
+//@   requires native != nil
+//@   modifies nothing
+//@   ensures err == nil ==> (r0 == nil <==> Store[peerApplyKey(peerPubkey)] == None)
+
+//@ func RegisterCandidate
+//@   property C18
+//@   mode abstract
+//@   requires native != nil && native.tx != nil
+//@   modifies Store
+//@   ghost var wit bool = false
+//@   set after "err := utils.ValidateOwner(native, params.Address)" : wit := err == nil
+//@   callsite[c18-owner] ValidateOwner#1 requires arg1 == params.Address
+//@   ensures[c18-witness] Store != old(Store) ==> wit
+
+//@ func UnRegisterCandidate
+//@   property C18
+//@   mode abstract
+//@   requires native != nil && native.tx != nil
+//@   modifies Store
+//@   ghost var wit bool = false
+//@   ghost var ownerOK bool = false
+//@   set after "err := utils.ValidateOwner(native, params.Address)" : wit := err == nil
+//@   set before "peerPubkeyPrefix, err := hex.DecodeString(params.PeerPubkey)" : ownerOK := peer != nil && peer.Address == params.Address
+//@   callsite[c18-owner] ValidateOwner#1 requires arg1 == params.Address
+//@   ensures[c18-witness] Store != old(Store) ==> wit && ownerOK
+
+//@ func ApproveCandidate
+//@   property C33, C18, C32
+//@   mode abstract
+//@   requires native != nil && native.tx != nil
+//@   modifies Store
+//@   ghost var wit bool = false
+//@   ghost var fired bool = false
+//@   ghost var rk KeyT
+//@   set after "err := utils.ValidateOwner(native, params.Address)" : wit := err == nil
+//@   set after "ok, err := CheckConsensusSigns(native, APPROVE_CANDIDATE, []byte(params.PeerPubkey), params.Address)" : fired := ok && err == nil
+//@   set after "peerPubkeyPrefix, err := hex.DecodeString(peer.PeerPubkey)" : rk := K2(utils.NodeManagerContractAddress, "peerApply", peerPubkeyPrefix)
+//@   callsite[c18-owner] ValidateOwner#1 requires arg1 == params.Address
+//@   callsite[c32-separation] CheckConsensusSigns#1 requires arg1 == "approveCandidate" && bytes(arg2) == bytes(params.PeerPubkey) && arg3 == params.Address
+//@   ensures[c18-witness] Store != old(Store) ==> wit
+//@   -- C33: once approved and admitted to the pool, the application is no longer pending
+//@   ensures[c33-consumed] r1 == nil && fired ==> Store[rk] == None
+//@   ensures[c33-pending] !fired ==> forall k string :: Store[peerApplyKey(k)] == old(Store)[peerApplyKey(k)]
+
+//@ func CommitDpos
+//@   property C18
+//@   mode abstract
+//@   requires native != nil && native.tx != nil
+//@   modifies Store
+//@   ghost var wit bool = false
+//@   ghost var due bool = false
+//@   ghost var gop [20]byte
+//@   set after "operatorAddress, err := GetCurConOperator(native)" : gop := operatorAddress
+//@   set after "err = utils.ValidateOwner(native, operatorAddress)" : wit := err == nil
+//@   set after "err = utils.ValidateOwner(native, operatorAddress)" : due := native.height - governanceView.Height >= config.MaxBlockChangeView
+//@   callsite[c18-operator] ValidateOwner#1 requires arg1 == gop
+//@   -- an epoch change happens with the operator's witness, or without it only once it is due
+//@   ensures[c18-forced] Store != old(Store) ==> wit || due
+
+//@ func UpdateConfig
+//@   property C18
+//@   mode abstract
+//@   requires native != nil && native.tx != nil
+//@   modifies Store
+//@   ghost var wit bool = false
+//@   ghost var gop [20]byte
+//@   set after "operatorAddress, err := GetCurConOperator(native)" : gop := operatorAddress
+//@   set after "err = utils.ValidateOwner(native, operatorAddress)" : wit := err == nil
+//@   callsite[c18-operator] ValidateOwner#1 requires arg1 == gop
+//@   ensures[c18-witness] Store != old(Store) ==> wit
+
+//@ func GetConfig
+//@   property C18
+//@   mode abstract
+//@   requires native != nil
+//@   modifies nothing
+
+// ---- storage helpers: each touches exactly one key ------------------------------------------------
+//@ spec nmKey0(prefix string) KeyT = K1(utils.NodeManagerContractAddress, prefix)
+
+//@ func putPeerApply
+//@   property C33
+//@   mode abstract
+//@   requires native != nil && peer != nil
+//@   modifies Store
+//@   ensures r0 == nil ==> Store == upd(old(Store), peerApplyKey(old(peer.PeerPubkey)), Store[peerApplyKey(old(peer.PeerPubkey))]) && Store[peerApplyKey(old(peer.PeerPubkey))] != None
+//@   ensures r0 != nil ==> Store == old(Store)
+
+//@ func putPeerPoolMap
+//@   property C33
+//@   mode abstract
+//@   requires native != nil && peerPoolMap != nil
+//@   modifies Store
+//@   ensures Store == upd(old(Store), poolKey(view), Store[poolKey(view)]) && Store[poolKey(view)] != None
+
+//@ func putConfig
+//@   property C18
+//@   mode abstract
+//@   requires native != nil && config != nil
+//@   modifies Store
+//@   ensures Store == upd(old(Store), nmKey0("vbftConfig"), Store[nmKey0("vbftConfig")]) && Store[nmKey0("vbftConfig")] != None
+
+//@ func getCandidateIndex
+//@   property C33
+//@   mode abstract
+//@   requires native != nil
+//@   modifies nothing
+
+//@ func putCandidateIndex
+//@   property C33
+//@   mode abstract
+//@   requires native != nil
+//@   modifies Store
+//@   ensures Store == upd(old(Store), nmKey0("candidateIndex"), Store[nmKey0("candidateIndex")]) && Store[nmKey0("candidateIndex")] != None
+
+//@ func putGovernanceView
+//@   property C18
+//@   mode abstract
+//@   requires native != nil && governanceView != nil
+//@   modifies Store
+//@   ensures Store == upd(old(Store), nmKey0("governanceView"), Store[nmKey0("governanceView")]) && Store[nmKey0("governanceView")] != None
